@@ -27,6 +27,7 @@ const (
 	CSym                 // an opaque symbol standing for a caller-supplied object (nothing can be computed from it)
 	CPtr                 // the address of a local struct variable (F < 0) or of its field F
 	CStruct              // a struct value, field by field
+	CClosure             // a function literal (Fn) with the values bound to its free variables (Tup)
 	CTop                 // unknown
 )
 
@@ -39,6 +40,7 @@ type CVal struct {
 	S   string
 	A   *ssa.Alloc
 	F   int
+	Fn  *ssa.Function
 }
 
 var (
@@ -67,6 +69,8 @@ func (v CVal) String() string {
 		return "sym(" + v.S + ")"
 	case CPtr:
 		return fmt.Sprintf("&%s.%d", v.A.Name(), v.F)
+	case CClosure:
+		return "closure(" + v.Fn.Name() + ")"
 	case CStruct:
 		var ps []string
 		for _, e := range v.Tup {
@@ -117,6 +121,15 @@ func (a CVal) eq(b CVal) bool {
 		return a.S == b.S
 	case CPtr:
 		return a.A == b.A && a.F == b.F
+	case CClosure:
+		if a.Fn != b.Fn || len(a.Tup) != len(b.Tup) {
+			return false
+		}
+		for i := range a.Tup {
+			if !a.Tup[i].eq(b.Tup[i]) {
+				return false
+			}
+		}
 	case CTuple, CStruct:
 		if len(a.Tup) != len(b.Tup) {
 			return false
@@ -170,6 +183,7 @@ type ConstEval struct {
 
 	prog  *ssa.Program
 	stack []*ssa.Function
+	free  []CVal // values for the free variables of the next activation (a function literal being called)
 
 	// local struct variables, field by field (flow-insensitive meet of the stores that are reached)
 	fields  map[*ssa.Alloc][]CVal
@@ -207,6 +221,26 @@ func zeroCV(t types.Type) CVal {
 	return Top
 }
 
+// capturedCell: a local variable of non-struct type that a function literal captures (one pseudo-field, index 0).
+func capturedCell(a *ssa.Alloc) bool {
+	if structOf(a) != nil || a.Referrers() == nil {
+		return false
+	}
+	for _, r := range *a.Referrers() {
+		if _, ok := r.(*ssa.MakeClosure); ok {
+			return true
+		}
+	}
+	return false
+}
+
+func fieldType(a *ssa.Alloc, f int) types.Type {
+	if st := structOf(a); st != nil {
+		return st.Field(f).Type()
+	}
+	return a.Type().Underlying().(*types.Pointer).Elem()
+}
+
 func (e *ConstEval) fieldVals(a *ssa.Alloc) []CVal {
 	if e.fields == nil {
 		e.fields = map[*ssa.Alloc][]CVal{}
@@ -214,10 +248,15 @@ func (e *ConstEval) fieldVals(a *ssa.Alloc) []CVal {
 	fs, ok := e.fields[a]
 	if !ok {
 		st := structOf(a)
+		n := 1
 		if st == nil {
-			return nil
+			if !capturedCell(a) {
+				return nil
+			}
+		} else {
+			n = st.NumFields()
 		}
-		fs = make([]CVal, st.NumFields())
+		fs = make([]CVal, n)
 		for i := range fs {
 			fs[i] = Bot
 		}
@@ -245,7 +284,7 @@ func (e *ConstEval) loadField(a *ssa.Alloc, f int) CVal {
 	}
 	v := fs[f]
 	if e.zeroed[a][f] {
-		v = meet(v, zeroCV(structOf(a).Field(f).Type()))
+		v = meet(v, zeroCV(fieldType(a, f)))
 	} else if v.K == CBot {
 		if e.missing == nil {
 			e.missing = map[*ssa.Alloc]map[int]bool{}
@@ -260,6 +299,13 @@ func (e *ConstEval) loadField(a *ssa.Alloc, f int) CVal {
 
 // escape: the variable is handed to code that is not evaluated; every field becomes unknown.
 func (e *ConstEval) escape(v CVal) {
+	if v.K == CClosure {
+		// the function literal may be run by code that is not evaluated: whatever it captured may be written
+		for _, b := range v.Tup {
+			e.escape(b)
+		}
+		return
+	}
 	if v.K != CPtr {
 		return
 	}
@@ -426,9 +472,13 @@ func (e *ConstEval) Run(fn *ssa.Function, args []CVal) *CEResult {
 		}
 		res.Val[p] = v
 	}
-	for _, fv := range fn.FreeVars {
+	for i, fv := range fn.FreeVars {
 		res.Val[fv] = Top
+		if i < len(e.free) {
+			res.Val[fv] = e.free[i]
+		}
 	}
+	e.free = nil
 	edge := map[[2]int]bool{}
 	res.Edge = edge
 	res.Reach[fn.Blocks[0]] = true
@@ -573,7 +623,23 @@ func (e *ConstEval) transfer(fn *ssa.Function, res *CEResult, v ssa.Value) CVal 
 		if structOf(x) != nil {
 			return CVal{K: CPtr, A: x, F: -1}
 		}
+		if capturedCell(x) {
+			return CVal{K: CPtr, A: x, F: 0}
+		}
 		return Top
+	case *ssa.MakeClosure:
+		cf, _ := x.Fn.(*ssa.Function)
+		if cf == nil {
+			return Top
+		}
+		bs := make([]CVal, len(x.Bindings))
+		for i, b := range x.Bindings {
+			bs[i] = res.Of(b)
+			if bs[i].K == CBot {
+				return Bot
+			}
+		}
+		return CVal{K: CClosure, Fn: cf, Tup: bs}
 	case *ssa.FieldAddr:
 		a := res.Of(x.X)
 		if a.K == CBot {
@@ -792,6 +858,7 @@ func (e *ConstEval) call(fn *ssa.Function, res *CEResult, c *ssa.Call, args []CV
 		return Top
 	}
 	var callee *ssa.Function
+	var free []CVal
 	if c.Call.IsInvoke() {
 		// receiver with a known dynamic type
 		if args[0].K == CType && fn.Prog != nil {
@@ -802,12 +869,15 @@ func (e *ConstEval) call(fn *ssa.Function, res *CEResult, c *ssa.Call, args []CV
 		}
 	} else {
 		callee = c.Call.StaticCallee()
-		if mc, ok := c.Call.Value.(*ssa.MakeClosure); ok {
-			callee, _ = mc.Fn.(*ssa.Function)
+		if cv := res.Of(c.Call.Value); cv.K == CClosure {
+			callee, free = cv.Fn, cv.Tup
 		}
 	}
 	esc := func() CVal {
 		for _, a := range args {
+			e.escape(a)
+		}
+		for _, a := range free {
 			e.escape(a)
 		}
 		return Top
@@ -827,6 +897,7 @@ func (e *ConstEval) call(fn *ssa.Function, res *CEResult, c *ssa.Call, args []CV
 			return esc()
 		}
 	}
+	e.free = free
 	sub := e.Run(callee, args)
 	res.Sub[c] = sub
 	if sub.Ret.K == CBot {
